@@ -14,6 +14,17 @@ def step (op : String) (args : List String) : Option String :=
     if n = 0 ∨ n > 8 then none else
     let o := assign n (← bool? f) (← bool? m)
     pure s!"ret={o.returned} err={boolStr o.err} cloud+={o.added}"
+  | "attached", [tr, er, tg, pref, tys] => do
+    let tys ← (tys.splitOn ",").mapM fun t => match t with
+      | "S" => some Ty.secondary | "T" => some Ty.trunk | "R" => some Ty.rdma | _ => none
+    if tys.isEmpty ∨ tys.length > 6 then none else
+    let pref : Option Nat ← (if pref = "-" then some none else (pref.toNat?).map some)
+    match pref with
+    | some i => if i ≥ tys.length then none else pure ()
+    | none => pure ()
+    let flags := attached (← bool? tr) (← bool? er) (← bool? tg) pref tys
+    let items := (List.range flags.length).zip flags |>.map fun (i, (t, r)) => s!"{i}:{boolStr t}{boolStr r}"
+    pure (if items.isEmpty then "-" else ",".intercalate items)
   | _, _ => none
 
 end Terway.Drv.FactoryD
